@@ -22,7 +22,7 @@ ASSUME = [
     'reload variants per workflow: unchanged, +task (new task downstream of '
     'the first task), +edge between existing tasks (same-cycle and/or '
     '[-P1]), -task, -edge; [runtime] is the same in every variant; 1 reload '
-    'per execution (thorough: 2 on the one-cycle workflows), offered at '
+    'per execution (thorough: 2 on two of the one-cycle workflows), offered at '
     'every main-loop boundary',
     'the reload blocks inside one main-loop iteration while preparing tasks '
     'submit: during that wait the environment completes the pending '
@@ -55,7 +55,7 @@ def catalogue(tier: str):
     # `reloads`: reloads per execution (thorough); quick is always 1
     add('chain2-f1-hold-a', 'chain2', 1, drop_tasks=['a', 'b'], reloads=2,
         helpers=[('hold', {'tasks': ['1/a']})])
-    add('fanout-f1-qlimit1', 'fanout', 1, reloads=2,
+    add('fanout-f1-qlimit1', 'fanout', 1,
         queues={'q': {'limit': 1, 'members': ['a', 'b', 'c']}},
         add_edges=[('b', 0, 'c')] if tier == 'quick'
         else [('b', 0, 'c'), ('c', 0, 'b')],
@@ -63,9 +63,8 @@ def catalogue(tier: str):
     add('chain2-f1-paused', 'chain2', 1, options={'paused_start': True},
         helpers=[('resume', {})], reloads=2)
     add('prevb-f2-ra0', 'prevb', 2, scheduling={'runahead limit': 'P0'})
-    add('custom-f1', 'custom', 1, reloads=2)
-    add('chain2-f2-holdcp1', 'chain2', 2, options={'holdcp': '1'},
-        reloads=2)
+    add('custom-f1', 'custom', 1)
+    add('chain2-f2-holdcp1', 'chain2', 2, options={'holdcp': '1'})
     if tier == 'thorough':
         add('prevb-f2', 'prevb', 2)
         add('chain2-f2', 'chain2', 2)
@@ -114,7 +113,7 @@ def run(ctx: Ctx) -> Result:
     COUNTS.collect(ctx.scratch)
     st = explore_all(
         ctx, [make_factory(s, ctx.tier) for s in specs],
-        max_states=ctx.pick(6000, 60000), max_seconds=ctx.pick(110, 1500))
+        max_states=ctx.pick(6000, 60000), max_seconds=ctx.pick(110, 2400))
     counts = COUNTS.collect(ctx.scratch)
     if not st.error and not st.violations:
         miss = [k for k in NEED if not counts.get(k)]
